@@ -1096,6 +1096,14 @@ type BMPMessage struct {
 }
 
 func (msg *BMPMessage) Serialize(options ...*bgp.MarshallingOption) ([]byte, error) {
+	// The Local Address of a Peer Up is read back as IPv6 or IPv4 depending on the
+	// V flag of the per-peer header: an address of the other family cannot be
+	// represented and used to come back as a different address.
+	if up, ok := msg.Body.(*BMPPeerUpNotification); ok && !msg.PeerHeader.isLocRIBInstancePeer() && up.LocalAddress.IsValid() {
+		if up.LocalAddress.Is4() == msg.PeerHeader.hasVFlag() {
+			return nil, fmt.Errorf("local address %s and peer address %s are of different address families", up.LocalAddress, msg.PeerHeader.PeerAddress)
+		}
+	}
 	buf := make([]byte, 0)
 	if msg.Header.Type != BMP_MSG_INITIATION && msg.Header.Type != BMP_MSG_TERMINATION {
 		p, err := msg.PeerHeader.Serialize()
